@@ -371,6 +371,52 @@ def check_multi_pairs(chk: Check, rng: common.Rng, n_graphs: int) -> None:
                     f"is removed although neither the type table nor its own value range justifies it", rep)
 
 
+def check_shape_only_ops(chk: Check, ops: list[str]) -> list[dict]:
+    """Every operator through which the code propagates integer value bounds must only move /
+    replicate elements of its first input (the reference list is proved included in GenProps;
+    here the claim itself is validated in ONNX Runtime, and an operator that is NOT in the
+    reference list is probed for a concrete counterexample)."""
+    import onnx
+    from onnx import TensorProto, helper, numpy_helper
+    import onnxruntime as ort
+    x = np.array([[11, -7, 300], [70000, -2, 5]], dtype=np.int64)
+    extra = {
+        "Expand": [numpy_helper.from_array(np.array([2, 2, 3], dtype=np.int64), "p1")],
+        "Reshape": [numpy_helper.from_array(np.array([3, 2], dtype=np.int64), "p1")],
+        "Unsqueeze": [numpy_helper.from_array(np.array([0], dtype=np.int64), "p1")],
+        "Squeeze": [],
+        "Pad": [numpy_helper.from_array(np.array([0, 1, 0, 0], dtype=np.int64), "p1")],
+        "Add": [numpy_helper.from_array(np.array(1, dtype=np.int64), "p1")],
+        "Mul": [numpy_helper.from_array(np.array(2, dtype=np.int64), "p1")],
+        "Sub": [numpy_helper.from_array(np.array(1, dtype=np.int64), "p1")],
+        "Tile": [numpy_helper.from_array(np.array([1, 2], dtype=np.int64), "p1")],
+        "Gather": [numpy_helper.from_array(np.array([1, 0], dtype=np.int64), "p1")],
+        "Concat": [],
+        "CumSum": [numpy_helper.from_array(np.array(1, dtype=np.int64), "p1")],
+        "ReduceSum": [],
+        "Slice": [numpy_helper.from_array(np.array([0], dtype=np.int64), "p1"),
+                  numpy_helper.from_array(np.array([1], dtype=np.int64), "p2")],
+    }
+    attrs = {"Transpose": {"perm": [1, 0]}, "Flatten": {"axis": 1}, "Concat": {"axis": 0}}
+    bad = []
+    for op in ops:
+        inits = extra.get(op, [])
+        node = helper.make_node(op, ["x"] + [t.name for t in inits], ["y"], **attrs.get(op, {}))
+        g = helper.make_graph([node], "g", [helper.make_tensor_value_info("x", TensorProto.INT64, [2, 3])],
+                              [helper.make_empty_tensor_value_info("y")], initializer=inits)
+        m = helper.make_model(g, opset_imports=[helper.make_opsetid("", 23)], ir_version=10)
+        try:
+            y = ort.InferenceSession(m.SerializeToString(), providers=["CPUExecutionProvider"]).run(None, {"x": x})[0]
+        except Exception as e:  # noqa: BLE001
+            bad.append({"op": op, "probe": "could not be built: " + str(e)[:120]})
+            continue
+        ok = set(np.asarray(y).reshape(-1).tolist()) <= set(x.reshape(-1).tolist())
+        chk.count({"op": "shape_only_probe", "operator": op, "elements_of_input_only": ok}, nontrivial=True)
+        if not ok:
+            bad.append({"op": op, "input": x.tolist(), "output": np.asarray(y).tolist()})
+    return bad
+
+
 def check_finfo(chk: Check) -> None:
     """Cross-check the reference's float triples (Lean kindOf) against numpy/ml_dtypes finfo."""
     import ml_dtypes
@@ -533,6 +579,14 @@ def run(chk: Check) -> None:
                             {"ort": res, "via": via})
 
     check_multi_pairs(chk, rng, 150 if not thorough else 1500)
+    shape_bad = check_shape_only_ops(chk, tabs["shape_only"])
+    chk.info("shape_only_ops_probe", {"operators": tabs["shape_only"], "violating": shape_bad})
+    for b in shape_bad:
+        if "output" in b:
+            range_found = True
+            chk.finding({"kind": "bounds_propagated_through_value_changing_op", "op": b["op"]},
+                        f"integer bounds are propagated through {b['op']}, which creates values that are not "
+                        f"elements of its input", b)
 
     # ---- validation of the reference against the runtime (numpy conversions) --------------
     swept = validate_reference(chk, rng, thorough)
